@@ -280,27 +280,42 @@ func main() {
 					continue
 				}
 				directCalls := calls
-				// (2) real ingest of a message carrying the string, (3) real relay dial
-				calls = 0
+				// (2) real ingest of a message carrying the string, (3) real relay dial; once as an ordinary registration and
+				// once with the client-settable "pre-scanned by another station" flag (it only excuses the phantom liveness
+				// probe, never the covert policy: lists are per-station configuration)
 				var anns []lib.VerifDetectorMsg
-				rm := vfix.Manager(conf, sel, &vfix.Tester{}, vfix.Transports{Min: true}, nil)
-				rm.VerifCaptureDetector(&anns)
-				m := vfix.Msg{Secret: vfix.Secret(3), Transport: pb.TransportType_Min, V4: true, Gen: 1, LibVer: 4, Covert: c, Source: pb.RegistrationSource_API, Addr: []byte{203, 0, 113, 7}}
 				var stored string
 				admitted := false
-				if p, msg, site := venum.Guard(func() {
-					regs, err := rm.VerifParseRegMessage(m.Bytes())
-					if err != nil || len(regs) != 1 {
-						return
+				crashed := false
+				for _, prescan := range []bool{true, false} {
+					calls = 0
+					dialed = dialed[:0]
+					anns = anns[:0]
+					rm := vfix.Manager(conf, sel, &vfix.Tester{}, vfix.Transports{Min: true}, nil)
+					rm.VerifCaptureDetector(&anns)
+					m := vfix.Msg{Secret: vfix.Secret(3), Transport: pb.TransportType_Min, V4: true, Gen: 1, LibVer: 4, Covert: c, Source: pb.RegistrationSource_API, Addr: []byte{203, 0, 113, 7}, Prescan: prescan}
+					stored, admitted = "", false
+					if p, msg, site := venum.Guard(func() {
+						regs, err := rm.VerifParseRegMessage(m.Bytes())
+						if err != nil || len(regs) != 1 {
+							return
+						}
+						rm.VerifIngest(regs[0])
+						if _, ok := rm.GetRegistrations(regs[0].PhantomIp)[rm.VerifIdentifier(regs[0])]; ok {
+							admitted = true
+							stored = regs[0].Covert
+							lib.Proxy(regs[0], nopConn{}, lib.VerifQuietLogger())
+						}
+					}); p {
+						e.Violation("panic:"+site, msg+" "+id, map[string]any{"case": id})
+						crashed = true
+						break
 					}
-					rm.VerifIngest(regs[0])
-					if _, ok := rm.GetRegistrations(regs[0].PhantomIp)[rm.VerifIdentifier(regs[0])]; ok {
-						admitted = true
-						stored = regs[0].Covert
-						lib.Proxy(regs[0], nopConn{}, lib.VerifQuietLogger())
+					if prescan && ((direct != "") != admitted || (admitted && (len(dialed) != 1 || dialed[0] != direct || stored != direct))) {
+						e.Violation("prescanned-flag-changes-covert-admission", fmt.Sprintf("%s: ParseOrResolveBlocklisted=%q; with the pre-scanned flag: admitted=%v stored=%q dialed=%q", id, direct, admitted, stored, dialed), map[string]any{"case": id})
 					}
-				}); p {
-					e.Violation("panic:"+site, msg+" "+id, map[string]any{"case": id})
+				}
+				if crashed {
 					continue
 				}
 				if (direct != "") != admitted {
